@@ -9,6 +9,7 @@ import (
 	"math/rand"
 	"sort"
 	"strings"
+	"sync"
 	"testing"
 	"time"
 
@@ -19,7 +20,7 @@ import (
 // C04: Streamable-HTTP session lifecycle against a reference model.
 
 type C04Op struct {
-	Op    string `json:"op"`              // init req notif resp get closestream delete
+	Op    string `json:"op"`              // init req notif resp get closestream delete deleterace (several DELETEs of one id at once)
 	Class string `json:"class,omitempty"` // none live dead never garbage
 	Sess  int    `json:"sess,omitempty"`  // index into the issued list (mod len)
 	Arg   string `json:"arg,omitempty"`   // method for req, garbage value for garbage
@@ -38,7 +39,7 @@ func genC04(t *rapid.T) C04Case {
 	c := C04Case{Cfg: rapid.SampledFrom([]int{0, 0, 0, 0, 1, 2}).Draw(t, "cfg"), GetSSE: rapid.IntRange(0, 4).Draw(t, "get") != 0, PostSSE: rapid.Bool().Draw(t, "postsse")}
 	n := rapid.IntRange(1, 14).Draw(t, "nops")
 	for i := 0; i < n; i++ {
-		op := C04Op{Op: rapid.SampledFrom([]string{"init", "init", "req", "req", "req", "notif", "resp", "get", "get", "closestream", "delete", "delete"}).Draw(t, "op")}
+		op := C04Op{Op: rapid.SampledFrom([]string{"init", "init", "req", "req", "req", "notif", "resp", "get", "get", "closestream", "delete", "delete", "deleterace"}).Draw(t, "op")}
 		op.Class = rapid.SampledFrom([]string{"none", "live", "live", "live", "dead", "dead", "never", "garbage"}).Draw(t, "class")
 		op.Sess = rapid.IntRange(0, 4).Draw(t, "sess")
 		switch op.Op {
@@ -80,7 +81,7 @@ func ntC04(c C04Case) (bool, []string) {
 		if op.Op == "init" && op.Class == "none" {
 			inits++
 		}
-		if op.Op == "delete" && op.Class == "live" {
+		if (op.Op == "delete" || op.Op == "deleterace") && op.Class == "live" {
 			sawDelete = true
 		} else if sawDelete && op.Class == "dead" {
 			del = true
@@ -386,6 +387,61 @@ func execC04(c C04Case) *Failure {
 				}
 				delete(streams, id)
 			}
+		case "deleterace":
+			// several DELETEs bearing the same id at once: whatever the order, exactly one of them finds the session alive
+			const k = 6
+			exs := make([]Exchange, k)
+			var wg sync.WaitGroup
+			start := make(chan struct{})
+			for i := 0; i < k; i++ {
+				wg.Add(1)
+				go func(i int) {
+					defer wg.Done()
+					<-start
+					exs[i] = direct("DELETE", "")
+				}(i)
+			}
+			close(start)
+			wg.Wait()
+			ok2xx := 0
+			for _, e := range exs {
+				if e.Err != nil {
+					return Failf("C04/panic", "%s: %v", where, e.Err)
+				}
+				switch {
+				case !stateful:
+					if f := checkHeader(e, false); f != nil {
+						return f
+					}
+				case class == "none":
+					if f := refuse(e, 400); f != nil {
+						return f
+					}
+				case !known:
+					if f := refuse(e, 404); f != nil {
+						return f
+					}
+				case e.Status >= 200 && e.Status <= 299:
+					ok2xx++
+				default:
+					if f := refuse(e, 404); f != nil {
+						return f
+					}
+				}
+			}
+			if stateful && known {
+				if ok2xx != 1 {
+					return Failf("C04/concurrent-delete", "%s: %d of %d concurrent DELETEs of one live session succeeded, want exactly 1", where, ok2xx, k)
+				}
+				delete(live, id)
+				dead[id] = true
+				if s, ok := streams[id]; ok {
+					if !s.WaitReturned(Bound() * 4) {
+						return TimingFailf("C04/delete-leaves-stream-open", "%s: the session's listening stream is still open after DELETE", where)
+					}
+					delete(streams, id)
+				}
+			}
 		case "delete":
 			ex = direct("DELETE", "")
 			if ex.Err != nil {
@@ -550,6 +606,63 @@ func TestC04IDs(t *testing.T) {
 		},
 		Exec: execC04IDs,
 		NT:   func(c C04IDCase) (bool, []string) { return true, []string{fmt.Sprintf("servers=%d", c.Servers)} }})
+}
+
+// C04DelRace: rounds of k DELETEs at once on a freshly issued session id. Whatever the interleaving, exactly one of
+// them meets a live session; the others bear an already deleted id (404), and the session is gone afterwards.
+type C04DelRace struct {
+	K      int `json:"k"`
+	Rounds int `json:"rounds"`
+}
+
+func execC04DelRace(c C04DelRace) *Failure {
+	srv := c04Server(C04Case{Cfg: 0, GetSSE: true})
+	w := &World{Srv: srv, Path: "/mcp"}
+	for r := 0; r < c.Rounds; r++ {
+		ex := w.Direct("POST", "/mcp", map[string]string{"Content-Type": "application/json", "Accept": "application/json"}, InitRequest("1", "2025-03-26"))
+		id := ex.Header.Get("Mcp-Session-Id")
+		if ex.Status != 200 || id == "" {
+			return Failf("C04/no-id-issued", "initialize answered %d without id", ex.Status)
+		}
+		st := make([]int, c.K)
+		var wg sync.WaitGroup
+		start := make(chan struct{})
+		for i := 0; i < c.K; i++ {
+			wg.Add(1)
+			go func(i int) {
+				defer wg.Done()
+				<-start
+				st[i] = w.Direct("DELETE", "/mcp", map[string]string{"Mcp-Session-Id": id}, nil).Status
+			}(i)
+		}
+		close(start)
+		wg.Wait()
+		ok, other := 0, 0
+		for _, s := range st {
+			switch {
+			case s >= 200 && s <= 299:
+				ok++
+			case s != 404:
+				other++
+			}
+		}
+		if ok != 1 || other != 0 {
+			return Failf("C04/concurrent-delete", "round %d: %d concurrent DELETEs of one live session were answered %v, want exactly one 2xx and 404 for the rest", r, c.K, st)
+		}
+		if act, _ := srv.GetActiveSessions(); len(act) != 0 {
+			return Failf("C04/live-set-mismatch", "round %d: after the DELETEs the server still reports live sessions %v", r, act)
+		}
+	}
+	return nil
+}
+
+func TestC04DeleteRace(t *testing.T) {
+	RunProp(t, Prop[C04DelRace]{ID: "C04",
+		Gen: func(t *rapid.T) C04DelRace {
+			return C04DelRace{K: rapid.IntRange(2, 12).Draw(t, "k"), Rounds: rapid.SampledFrom([]int{100, 300}).Draw(t, "rounds")}
+		},
+		Exec: execC04DelRace,
+		NT:   func(c C04DelRace) (bool, []string) { return true, []string{fmt.Sprintf("k=%d", c.K)} }})
 }
 
 var _ = time.Second
